@@ -49,7 +49,7 @@ def judge(req, impl, f, prev, hi, i):
     if len(f) > 2 and f[2] == 'copy_overlap':
         DEAD[hi] = i                                  # overlapping copy: order-dependent by construction
         return None
-    if vlib.cmp_line(req, impl, w) != 'mismatch':     # order-dependent / hang tolerance, same rules as model comparison
+    if vlib.cmp_line(req, impl, w, f[2] if len(f) > 2 else None) != 'mismatch':     # order-dependent / hang tolerance, same rules as model comparison
         DEAD[hi] = i                                  # the two runs may legitimately differ from here on
         return None
     return (w, 'the call through Vfs::Memfs(..) differs from the direct call on Memfs (result or state)')
